@@ -266,3 +266,71 @@ func spoilDump(dump string, n int) string {
 	}
 	return ""
 }
+
+// writerOrder lists the records of a file in the order X9.100-187 nests them (and Writer.Write emits them): file
+// header, per cash letter its header, credit items, credits, bundles (header, items each followed by its addenda
+// and, per image view, detail / data / analysis), routing number summaries, control; file control.
+func writerOrder(f *icl.File) []fmt.Stringer {
+	var out []fmt.Stringer
+	out = append(out, &f.Header)
+	views := func(d []icl.ImageViewDetail, t []icl.ImageViewData, a []icl.ImageViewAnalysis) {
+		for i := range d {
+			out = append(out, &d[i])
+			if i < len(t) {
+				out = append(out, &t[i])
+			}
+			if i < len(a) {
+				out = append(out, &a[i])
+			}
+		}
+	}
+	for ci := range f.CashLetters {
+		cl := &f.CashLetters[ci]
+		out = append(out, cl.CashLetterHeader)
+		for _, x := range cl.CreditItems {
+			out = append(out, x)
+		}
+		for _, x := range cl.Credits {
+			out = append(out, x)
+		}
+		for _, b := range cl.Bundles {
+			out = append(out, b.BundleHeader)
+			for _, cd := range b.Checks {
+				out = append(out, cd)
+				for j := range cd.CheckDetailAddendumA {
+					out = append(out, &cd.CheckDetailAddendumA[j])
+				}
+				for j := range cd.CheckDetailAddendumB {
+					out = append(out, &cd.CheckDetailAddendumB[j])
+				}
+				for j := range cd.CheckDetailAddendumC {
+					out = append(out, &cd.CheckDetailAddendumC[j])
+				}
+				views(cd.ImageViewDetail, cd.ImageViewData, cd.ImageViewAnalysis)
+			}
+			for _, rd := range b.Returns {
+				out = append(out, rd)
+				for j := range rd.ReturnDetailAddendumA {
+					out = append(out, &rd.ReturnDetailAddendumA[j])
+				}
+				for j := range rd.ReturnDetailAddendumB {
+					out = append(out, &rd.ReturnDetailAddendumB[j])
+				}
+				for j := range rd.ReturnDetailAddendumC {
+					out = append(out, &rd.ReturnDetailAddendumC[j])
+				}
+				for j := range rd.ReturnDetailAddendumD {
+					out = append(out, &rd.ReturnDetailAddendumD[j])
+				}
+				views(rd.ImageViewDetail, rd.ImageViewData, rd.ImageViewAnalysis)
+			}
+			out = append(out, b.BundleControl)
+		}
+		for _, x := range cl.RoutingNumberSummary {
+			out = append(out, x)
+		}
+		out = append(out, cl.CashLetterControl)
+	}
+	out = append(out, &f.Control)
+	return out
+}
